@@ -198,12 +198,20 @@ func skolemizeGoal(goal string) (string, []skConst) {
 
 // instantiateAt returns, for each assumed fact that contains a single-variable
 // universal quantifier in a positive position, the fact with that quantifier
-// replaced by its instance at each Skolem constant of the same sort.
+// replaced by its instance at each Skolem constant of the same sort — and then,
+// for a few rounds, at every index term mentioning a Skolem constant that the
+// instances so far use to read an array (`(select a t)`): byte-copy axioms and
+// window facts (`matches`) chain through such derived indices (dst[q] is
+// src[soff + (q - doff)], which in turn is stream[c0 + ...]).
 func instantiateAt(asserts []string, sks []skConst) []string {
-	var out []string
 	if len(sks) == 0 {
 		return nil
 	}
+	type site struct {
+		root, f *sx
+		v, sort string
+	}
+	var sites []site
 	for _, a := range asserts {
 		if !strings.Contains(a, "(forall ") || len(a) > 200000 {
 			continue
@@ -212,9 +220,6 @@ func instantiateAt(asserts []string, sks []skConst) []string {
 		if root == nil {
 			continue
 		}
-		// collect positive single-variable foralls
-		type site struct{ n *sx }
-		var sites []*sx
 		var find func(n *sx)
 		find = func(n *sx) {
 			if n.kids == nil {
@@ -223,7 +228,7 @@ func instantiateAt(asserts []string, sks []skConst) []string {
 			switch n.head() {
 			case "forall":
 				if len(n.kids) == 3 && len(n.kids[1].kids) == 1 && len(n.kids[1].kids[0].kids) == 2 {
-					sites = append(sites, n)
+					sites = append(sites, site{root, n, n.kids[1].kids[0].kids[0].atom, n.kids[1].kids[0].kids[1].String()})
 				}
 			case "and":
 				for _, k := range n.kids[1:] {
@@ -236,19 +241,141 @@ func instantiateAt(asserts []string, sks []skConst) []string {
 			}
 		}
 		find(root)
-		for _, f := range sites {
-			v := f.kids[1].kids[0].kids[0].atom
-			sort := f.kids[1].kids[0].kids[1].String()
-			for _, sk := range sks {
-				if sk.sort != sort {
+	}
+	if len(sites) == 0 {
+		return nil
+	}
+	// which object does an inner array (index -> element) belong to? Used to instantiate a fact
+	// about one object's elements only at indices that are used to read that object.
+	defs := map[string]*sx{}     // name -> defining term, from (= name term)
+	innerRef := map[string]string{} // inner array name -> ref it is stored under, from (= H' (store H ref inner))
+	for _, a := range asserts {
+		if !strings.HasPrefix(a, "(= ") || len(a) > 4000 {
+			continue
+		}
+		n := parseSexp(a)
+		if n == nil || len(n.kids) != 3 || n.kids[1].kids != nil {
+			continue
+		}
+		defs[n.kids[1].atom] = n.kids[2]
+		if d := n.kids[2]; d.head() == "store" && len(d.kids) == 4 && d.kids[3].kids == nil {
+			innerRef[d.kids[3].atom] = d.kids[2].String()
+		}
+	}
+	var arrayRef func(a *sx, depth int) string
+	arrayRef = func(a *sx, depth int) string {
+		if depth > 6 {
+			return ""
+		}
+		if a.kids == nil {
+			if r, ok := innerRef[a.atom]; ok {
+				return r
+			}
+			if d, ok := defs[a.atom]; ok {
+				return arrayRef(d, depth+1)
+			}
+			return ""
+		}
+		if a.head() == "select" && len(a.kids) == 3 {
+			return a.kids[2].String() // (select heap ref): the object is ref, whatever the heap version
+		}
+		return ""
+	}
+	patternRef := func(f *sx) string {
+		body := f.kids[2]
+		if body.head() != "!" {
+			return ""
+		}
+		for i, k := range body.kids {
+			if k.kids == nil && k.atom == ":pattern" && i+1 < len(body.kids) {
+				pats := body.kids[i+1]
+				if len(pats.kids) > 0 && pats.kids[0].head() == "select" && len(pats.kids[0].kids) == 3 {
+					return arrayRef(pats.kids[0].kids[1], 0)
+				}
+			}
+		}
+		return ""
+	}
+	type term struct {
+		n    *sx
+		sort string
+		ref  string // object whose elements are read at this index ("" = any)
+	}
+	var out []string
+	done := map[string]bool{}
+	terms := []term{}
+	for _, sk := range sks {
+		terms = append(terms, term{&sx{atom: sk.name}, sk.sort, ""})
+		done[sk.name] = true
+	}
+	mentionsSk := func(n *sx) bool {
+		found := false
+		var walk func(n *sx)
+		walk = func(n *sx) {
+			if found {
+				return
+			}
+			if n.kids == nil {
+				if strings.HasPrefix(n.atom, "sk!") {
+					found = true
+				}
+				return
+			}
+			for _, k := range n.kids {
+				walk(k)
+			}
+		}
+		walk(n)
+		return found
+	}
+	for round := 0; round < 3 && len(terms) > 0; round++ {
+		var fresh []*sx
+		for _, t := range terms {
+			for _, st := range sites {
+				if st.sort != t.sort {
 					continue
 				}
-				inst := stripPattern(f.kids[2]).subst(map[string]*sx{v: {atom: sk.name}})
-				out = append(out, replaceNode(root, f, inst).String())
-				if len(out) >= 96 {
+				if t.ref != "" {
+					if pr := patternRef(st.f); pr != "" && pr != t.ref {
+						continue // a fact about another object's elements
+					}
+				}
+				inst := stripPattern(st.f.kids[2]).subst(map[string]*sx{st.v: t.n})
+				fresh = append(fresh, inst)
+				out = append(out, replaceNode(st.root, st.f, inst).String())
+				if len(out) >= 160 {
 					return out
 				}
 			}
+		}
+		// index terms of array reads in the new instances
+		terms = nil
+		var collect func(n *sx)
+		collect = func(n *sx) {
+			if n.kids == nil {
+				return
+			}
+			if n.head() == "select" && len(n.kids) == 3 {
+				idx := n.kids[2]
+				if idx.kids != nil && mentionsSk(idx) {
+					ref := arrayRef(n.kids[1], 0)
+					key := idx.String() + "@" + ref
+					// only element reads of an object (64-bit index); (select heap ref) has a reference as index
+					if ref != "" && !done[key] && len(key) < 500 {
+						done[key] = true
+						terms = append(terms, term{idx, "(_ BitVec 64)", ref})
+					}
+				}
+			}
+			for _, k := range n.kids {
+				collect(k)
+			}
+		}
+		for _, f := range fresh {
+			collect(f)
+		}
+		if len(terms) > 16 {
+			terms = terms[:16]
 		}
 	}
 	return out
@@ -285,4 +412,89 @@ func (o *Obligation) Query() string {
 	extra := instantiateAt(o.smt.asserts[:pre], sks)
 	extra = append(extra, o.pc, not(goal))
 	return o.smt.QueryDecls(o.prefix, decls, extra...)
+}
+
+// QueryQF is the quantifier-free weakening of Query (see SolveWithQF), or "" when the
+// negated goal itself needs quantifiers.
+func (o *Obligation) QueryQF() string {
+	goal, sks := skolemizeGoal(o.goal)
+	if strings.Contains(goal, "(forall ") || strings.Contains(goal, "(exists ") {
+		return ""
+	}
+	pre := o.prefix
+	if pre > len(o.smt.asserts) {
+		pre = len(o.smt.asserts)
+	}
+	quantified := false
+	var keep []string
+	for _, a := range o.smt.asserts[:pre] {
+		if strings.Contains(a, "(forall ") || strings.Contains(a, "(exists ") {
+			quantified = true
+			continue
+		}
+		keep = append(keep, a)
+	}
+	if !quantified {
+		return "" // nothing to gain: the main query is already quantifier free
+	}
+	var b strings.Builder
+	b.WriteString(strings.Replace(prelude, "(set-logic ALL)", "(set-logic QF_AUFBV)", 1))
+	for _, d := range o.smt.decls {
+		b.WriteString(d)
+		b.WriteByte('\n')
+	}
+	for _, sk := range sks {
+		fmt.Fprintf(&b, "(declare-const %s %s)\n", sk.name, sk.sort)
+	}
+	for _, a := range keep {
+		b.WriteString("(assert " + a + ")\n")
+	}
+	for _, a := range instantiateAt(o.smt.asserts[:pre], sks) {
+		if strings.Contains(a, "(forall ") || strings.Contains(a, "(exists ") {
+			continue
+		}
+		b.WriteString("(assert " + a + ")\n")
+	}
+	b.WriteString("(assert " + o.pc + ")\n(assert " + not(goal) + ")\n(check-sat)\n")
+	return b.String()
+}
+
+// splitGoal splits (and a b ..) and (=> p (and a b ..)) into one goal per conjunct.
+func splitGoal(goal string) []string {
+	root := parseSexp(goal)
+	if root == nil {
+		return nil
+	}
+	var split func(n *sx) []*sx
+	split = func(n *sx) []*sx {
+		if n.kids == nil {
+			return []*sx{n}
+		}
+		switch n.head() {
+		case "and":
+			var out []*sx
+			for _, k := range n.kids[1:] {
+				out = append(out, split(k)...)
+			}
+			return out
+		case "=>":
+			if len(n.kids) == 3 {
+				var out []*sx
+				for _, p := range split(n.kids[2]) {
+					out = append(out, &sx{kids: []*sx{n.kids[0], n.kids[1], p}})
+				}
+				return out
+			}
+		}
+		return []*sx{n}
+	}
+	parts := split(root)
+	if len(parts) < 2 || len(parts) > 16 {
+		return nil
+	}
+	var out []string
+	for _, p := range parts {
+		out = append(out, p.String())
+	}
+	return out
 }
